@@ -35,6 +35,7 @@ LEVEL = {
                  "(awaitable/plain x async/sync iterable x awaitable/plain item), event traces compared with the specification",
 }
 LEVEL["decided"] += ' sync(): the wrapper calls the very callable it was given, also when that is a functools.partial (closure environment evaluated).'
+LEVEL["decided"] += ' sync(): a callable that is not itself a coroutine function is never handed back unwrapped, whatever its attributes (a class whose instances have an async __call__).'
 
 
 def run(ctx) -> None:
